@@ -383,6 +383,16 @@ fn sigmf_leg(src: &mut Src, ctx: &mut RunCtx, solo: &Arc<Solo>) -> RunResult {
                 Ok(Err(e)) => return Err(Violation::new("C14:sigmf-write-failed", format!("sigmf::write failed: {e}"))),
                 Err(p) => return Err(Violation::new("C14:sigmf-write-panicked", format!("sigmf::write panicked: {} at {}", p.msg, p.loc))),
             }
+        } else if src.chance(1, 3) {
+            // Metadata built with the crate's own type and serialiser, as the
+            // sigmf example does; no capture segment listed.
+            ctx.count("sigmf_meta_serialised_by_the_crate");
+            let text = match catch(|| serde_json::to_string(&rustradio::sigmf::SigMF::new(dt.to_string()))) {
+                Ok(Ok(t)) => t,
+                Ok(Err(e)) => return Err(Violation::new("C14:sigmf-serialise-failed", format!("serialising SigMF::new({dt:?}) failed: {e}"))),
+                Err(p) => return Err(Violation::new("C14:sigmf-serialise-panicked", format!("serialising SigMF::new({dt:?}) panicked: {}", p.msg))),
+            };
+            std::fs::write(dir.path().join("capture.sigmf-meta"), text).map_err(|e| Violation::new("HARNESS-PANIC write", e.to_string()))?;
         } else {
             std::fs::write(dir.path().join("capture.sigmf-meta"), sigmf_meta(dt)).map_err(|e| Violation::new("HARNESS-PANIC write", e.to_string()))?;
         }
